@@ -80,6 +80,9 @@ pub struct AnsSpec {
     /// names share suffixes with the question and each other
     pub share_names: bool,
     pub with_opt: bool,
+    /// resize one opaque record so that the encoded upstream reply has exactly this many octets
+    #[serde(default)]
+    pub steer_total: Option<usize>,
 }
 
 #[derive(Clone, Debug, Serialize, Deserialize, PartialEq)]
@@ -385,7 +388,35 @@ pub fn build_answer(spec: &AnsSpec, q: &(Name, u16, u16), serial: u32, id: u16) 
         }
     }
     if spec.with_opt || spec.rcode > 15 {
-        m.additional.push(Rr { name: Name(vec![]), rtype: T_OPT, class: 1232, ttl: ((spec.rcode as u32) >> 4) << 24, rdata: RData::Opt(vec![]) });
+        /* RFC 6891 6.1.1: OPT may sit anywhere in the additional section */
+        let opt = Rr { name: Name(vec![]), rtype: T_OPT, class: 1232, ttl: ((spec.rcode as u32) >> 4) << 24, rdata: RData::Opt(vec![]) };
+        let mut k = Rng::new(spec.seed, "opt-position");
+        let at = match k.below(4) {
+            0 => 0,
+            1 => k.below(m.additional.len() as u64 + 1) as usize,
+            _ => m.additional.len(),
+        };
+        m.additional.insert(at, opt);
+    }
+    if let Some(target) = spec.steer_total {
+        /* make the encoded reply exactly `target` octets long by resizing one opaque record */
+        let len = encode(&m, spec.compress).len();
+        let i = match m.answer.iter().position(|rr| rr.rtype == 65280 && matches!(rr.rdata, RData::Raw(_))) {
+            Some(i) => i,
+            None => {
+                let mut d = ser_bytes.to_vec();
+                d.extend_from_slice(&[0u8; 4]);
+                m.answer.push(Rr { name: qn.clone(), rtype: 65280, class: 1, ttl: spec.fixed_ttl, rdata: RData::Raw(d) });
+                m.answer.len() - 1
+            }
+        };
+        let len = if len == encode(&m, spec.compress).len() { len } else { encode(&m, spec.compress).len() };
+        if let RData::Raw(d) = &mut m.answer[i].rdata {
+            let want = d.len() as i64 + target as i64 - len as i64;
+            if (4..=65535).contains(&want) {
+                d.resize(want as usize, 0x5a);
+            }
+        }
     }
     m
 }
@@ -607,6 +638,7 @@ pub fn generate(seed: u64, g: &GenB) -> PlanB {
             compress: r.chance(0.6),
             share_names: r.chance(0.6),
             with_opt: r.chance(0.5),
+            steer_total: None,
         };
         let up = if faulty {
             match r.below(14) {
@@ -645,6 +677,18 @@ pub fn generate(seed: u64, g: &GenB) -> PlanB {
             UpTcp::Normal
         };
         let tcp = if shape == "large" || idreuse { true } else { r.chance(if big { 0.5 } else { 0.3 }) };
+        let mut ans = ans;
+        if shape == "large" {
+            /* half of the large replies are steered to the last octets below the 65535 limit:
+             * erbium drops the upstream OPT, adds its own and compresses names its own way, so
+             * its output lands on every size around the limit, 65536 included */
+            let mut k = Rng::new(ans.seed, "steer-65535");
+            if k.chance(0.5) {
+                ans.counts = [k.range(1, 3) as u16, k.range(0, 2) as u16, k.range(0, 2) as u16];
+                ans.pad = 0;
+                ans.steer_total = Some(k.range(65_470, 65_535) as usize);
+            }
+        }
         let edns = if r.chance(0.7) {
             Some(EdnsSpec {
                 size: *r.pick(&[0u16, 511, 512, 513, 1232, 1232, 4096, 4096, 65535]),
@@ -714,7 +758,7 @@ pub fn generate(seed: u64, g: &GenB) -> PlanB {
             q.qname = Name::parse(&format!("recovered{}.{}", i, template.qname.to_text()));
             q.up = UpBehaviour::Normal { delay_ms: 20 };
             q.up_tcp = UpTcp::Normal;
-            q.ans = AnsSpec { seed: r.next_u64(), rcode: 0, counts: [2, 1, 1], ttl_mode: 1, fixed_ttl: 60, pad: 0, compress: true, share_names: true, with_opt: true };
+            q.ans = AnsSpec { seed: r.next_u64(), rcode: 0, counts: [2, 1, 1], ttl_mode: 1, fixed_ttl: 60, pad: 0, compress: true, share_names: true, with_opt: true, steer_total: None };
             q.dup_in = false;
             q.tcp_split = vec![];
             q.rd = true;
@@ -735,6 +779,9 @@ pub fn generate(seed: u64, g: &GenB) -> PlanB {
     }
     if shape == "tcpidle" {
         add_tcp_idle_followups(&mut p, &mut r);
+    }
+    if shape == "routes" {
+        add_confusable_labels(&mut p, seed);
     }
     if shape == "pipeline" {
         add_pipelines(&mut p, &mut r);
@@ -776,6 +823,53 @@ pub fn generate(seed: u64, g: &GenB) -> PlanB {
     }
     p.queries.sort_by_key(|q| q.at_ms);
     p
+}
+
+/// The routes shape: a suffix gets a label with a non-letter whose code differs by 0x20 from
+/// another non-letter ('@' and '`', '[' and '{', ']' and '}', '^' and '~'): ASCII
+/// case-insensitivity folds letters only, so the partner character must not match.
+fn add_confusable_labels(p: &mut PlanB, seed: u64) {
+    let mut k = Rng::new(seed, "plan-b-confusable");
+    if !k.chance(0.4) || p.queries.is_empty() {
+        return;
+    }
+    let cands: Vec<(usize, usize)> = p.routes.iter().enumerate().flat_map(|(ri, r)| r.suffixes.iter().enumerate().filter(|(_, s)| !s.is_empty()).map(move |(si, _)| (ri, si))).collect();
+    if cands.is_empty() {
+        return;
+    }
+    let (ri, si) = *k.pick(&cands);
+    let (a, b) = *k.pick(&[('@', '`'), ('[', '{'), (']', '}'), ('^', '~')]);
+    let (a, b) = if k.chance(0.5) { (a, b) } else { (b, a) };
+    let old = p.routes[ri].suffixes[si].clone();
+    let (first, rest) = match old.split_once('.') {
+        Some((f, r)) => (f.to_string(), format!(".{}", r)),
+        None => (old.clone(), String::new()),
+    };
+    let with = |c: char| format!("{}{}z{}", first, c, rest);
+    p.routes[ri].suffixes[si] = with(a);
+    let template = p.queries[k.below(p.queries.len() as u64) as usize].clone();
+    let last = p.queries.iter().map(|q| q.at_ms).max().unwrap_or(1000);
+    for v in 0..k.range(2, 5) {
+        let mut q = template.clone();
+        let under = match k.below(3) {
+            0 => with(a),
+            1 => with(b),
+            _ => rand_case(&mut k, &with(b), 0.5),
+        };
+        q.qname = Name::parse(&if k.chance(0.3) { under.clone() } else { format!("c{}.{}", v, under) });
+        q.at_ms = last + 40 * (v + 1);
+        q.src_port = 61_000 + v as u16;
+        q.id = k.below(65536) as u16;
+        q.tcp = false;
+        q.tcp_split = vec![];
+        q.dup_in = false;
+        q.conn = None;
+        q.rd = true;
+        q.ans.seed = k.next_u64();
+        q.up = UpBehaviour::Normal { delay_ms: 10 };
+        q.up_tcp = UpTcp::Normal;
+        p.queries.push(q);
+    }
 }
 
 /// The pipeline shape: several queries of one client over one TCP connection (RFC 7766),
@@ -1007,7 +1101,7 @@ pub fn generate_flood(seed: u64, cookie: bool) -> PlanB {
         id: r.below(65536) as u16,
         edns,
         tcp_split: vec![],
-        ans: AnsSpec { seed: r.next_u64(), rcode: 0, counts: [1, 0, 0], ttl_mode: 1, fixed_ttl: 30, pad: 0, compress: true, share_names: false, with_opt: true },
+        ans: AnsSpec { seed: r.next_u64(), rcode: 0, counts: [1, 0, 0], ttl_mode: 1, fixed_ttl: 30, pad: 0, compress: true, share_names: false, with_opt: true, steer_total: None },
         up: UpBehaviour::Normal { delay_ms: 20 },
         up_tcp: UpTcp::Normal,
         dup_in: false,
